@@ -10,7 +10,7 @@ Record cf_case := mkCfCase {
   cf_validates : bool;                 (* Config.Validate() = nil on the decoded structure *)
   cf_loaded : bool;                    (* config.LoadConfig(file) succeeded *)
   cf_chain_ok : bool;                  (* plugins.BuildChain succeeded *)
-  cf_proc : Z;                         (* real binary: -1 not run, 0 exited with an error, 1 listening, 2 neither, 3 panicked *)
+  cf_proc : Z;                         (* real binary: -1 not run, 0 exited with an error message, 1 listening, 2 neither, 3 panicked, 4 exited without a word *)
   cf_served : Z;                       (* -1 not run, 1 = answered a plain and a gzip-accepting request correctly, 0 = did not *)
   cf_run_ok : bool;                    (* the copy the binary ran (free ports, harness backend, no TLS / probes) validates and its chain builds *)
   cf_doc : bool;                       (* a shipped file or a documentation snippet *)
